@@ -50,6 +50,22 @@ def nodes(t, out):
     return out
 
 
+class TableBinary:
+    def __init__(self, table):
+        self.table = table
+
+    def __call__(self, x, y):
+        return list(self.table.get((cat_id(x), cat_id(y)), []))
+
+
+class TableUnary:
+    def __init__(self, table):
+        self.table = table
+
+    def __call__(self, x):
+        return list(self.table.get(cat_id(x), []))
+
+
 def run_table_job(job, cyrt):
     import numpy as np
     import depccg.parsing as P
@@ -64,14 +80,7 @@ def run_table_job(job, cyrt):
     for x, c, lab in job['unary']:
         utab.setdefault(x, []).append(CombinatorResult(cats[c], lab, lab.upper(), True))
     calls = []
-
-    def bf(x, y):
-        calls.append(('b', cat_id(x), cat_id(y)))
-        return list(btab.get((cat_id(x), cat_id(y)), []))
-
-    def uf(x):
-        calls.append(('u', cat_id(x)))
-        return list(utab.get(cat_id(x), []))
+    bf, uf = TableBinary(btab), TableUnary(utab)
     doc, scores = [], []
     for s in job['sentences']:
         n = len(s['tag'])
